@@ -546,3 +546,24 @@ def bitscan_loop(o):
         if nonempty:
             return {'R': R, 'R0': R0, 'init': init, 'head': h[2], 'local': l}
     return None
+
+
+def par_task(facts, parent):
+    """the closure of `parent` that is handed to a rayon adapter (par_iter().map(..) / for_each(..) / filter_map(..)): the body of the parallel
+    tasks, whatever its index among the closures of the function (another closure written before it shifts the numbering)"""
+    f = facts.fns.get(parent)
+    if f is not None:
+        clos = {}
+        for b in f.blocks:
+            if b['cleanup']:
+                continue
+            for s in b['stmts']:
+                if s['k'] == 'assign' and s['rv'].get('k') == 'aggregate' and s['rv'].get('agg') == 'closure' and not s['place'].get('proj'):
+                    clos[s['place']['local']] = s['rv'].get('closure')
+        for b_, t in f.calls():
+            cn = facts.callee_name(t) or ''
+            if 'rayon::' in cn and 'Parallel' in cn:
+                for a in t.get('args', []):
+                    if a.get('k') in ('move', 'copy') and not a['place'].get('proj') and a['place']['local'] in clos:
+                        return clos[a['place']['local']]
+    return parent + '::{closure#0}'
